@@ -558,8 +558,10 @@ where
 
     // 2. Iterate through each shard, notify the corresponding policy for each
     //    key being removed, and then clear the shard's map.
+    let mut removed_cost = 0u64;
     for (i, guard) in shard_guards.iter_mut().enumerate() {
       let policy = &self.shared.cache_policy[i];
+      removed_cost += guard.values().map(|e| e.cost()).sum::<u64>();
       for key in guard.keys() {
         // This is the crucial step you identified.
         policy.on_remove(key);
@@ -573,12 +575,15 @@ where
       policy.clear();
     }
 
-    // 4. Reset metrics and cost gate.
+    // 4. Take the cleared entries out of the cost gate. Only what this call removed is
+    //    subtracted (not a reset to zero): inserts and removes running concurrently apply
+    //    their own cost updates outside the shard locks, and a reset would lose or
+    //    double-count them.
     self
       .shared
       .metrics
       .current_cost
-      .store(0, std::sync::atomic::Ordering::Relaxed);
+      .fetch_sub(removed_cost, std::sync::atomic::Ordering::Relaxed);
   }
 
   /// Returns a concurrent-safe iterator over the key-value pairs in the cache.
